@@ -242,7 +242,7 @@ def shrink_line(line, proj, budget=120):
 def write_replay(ctx, v, extra=None):
     os.makedirs(os.path.join(ROOT, "replays"), exist_ok=True)
     body = {"property": ctx.pid, "tier": ctx.tier, "seed": ctx.seed, "kind": v["kind"]}
-    for k in ("op", "gen", "proj", "model", "pyemv", "predicate", "detail", "history", "theorem", "note"):
+    for k in ("op", "gen", "proj", "model", "pyemv", "predicate", "detail", "history", "theorem", "note", "shared_objects"):
         if k in v and v[k] is not None:
             body[k] = v[k]
     if extra:
@@ -265,9 +265,12 @@ def do_replay(pid, path):
         proj = r.get("proj", "full")
         want = run_model(lines, 1)
         bad = 0
+        import contextlib
+        scope = pyexec.shared_objects() if r.get("shared_objects") else contextlib.nullcontext()
         for ln, w in zip(lines, want):
             try:
-                g = pyexec.py_answer(ln)
+                with scope:
+                    g = pyexec.py_answer(ln)
             except Exception as e:  # noqa: BLE001
                 g = f"cannot re-execute ({e})"
             diff = PROJ[proj](g) != PROJ[proj](w)
@@ -283,6 +286,109 @@ def do_replay(pid, path):
 
 
 # -------------------------------------------------------------------------------------------------
+
+def shared_object_session(ctx):
+    """Re-run a sample of the property's own (agreeing) cases, in order, with every byte-string argument a pooled
+    bytearray object that is shared between calls and never rewritten; the answers must still be the model's and
+    no pooled object may have changed.  Catches in-place updates of, and retained references to, caller-held
+    buffers for every public function at once."""
+    import pyexec
+    keep = []
+    for line, proj, want in ctx.replayable:
+        if len(line) > 20000:
+            continue
+        try:
+            g = pyexec.py_answer(line)
+        except Exception:  # noqa: BLE001
+            continue
+        if PROJ[proj](g) == PROJ[proj](want):           # the line alone reproduces the case (no custom call)
+            keep.append((line, proj, want))
+    n = 0
+    with pyexec.shared_objects() as sh:
+        for i, (line, proj, want) in enumerate(keep):
+            try:
+                g = pyexec.py_answer(line)
+            except Exception as e:  # noqa: BLE001
+                g = f"uncaught {type(e).__name__}"
+            n += 1
+            if PROJ[proj](g) != PROJ[proj](want):
+                ctx.violations.append({"kind": "disagreement", "op": line, "gen": "shared-object session", "proj": proj,
+                                       "model": want, "pyemv": g, "history": [k[0] for k in keep[: i + 1]], "shared_objects": True,
+                                       "note": "arguments are pooled bytearray objects shared between the calls of the history"})
+                break
+        mod = sh.modified()
+    for before, after in mod[:3]:
+        ctx.violations.append({"kind": "predicate", "predicate": "arguments not modified (shared-object session)",
+                               "detail": f"a bytearray argument holding {before.hex()[:80]} was left holding {after.hex()[:80]}",
+                               "op": "shared-object session"})
+    ctx.relational["shared-object session: same answers, arguments untouched"] += n
+    ctx.evaluations += n
+    ctx.extra["shared_object_session"] = {"calls": n, "distinct_objects": len(sh.pool)}
+
+
+INTERPRETER_MODES = [["-O"], ["-OO"], ["-bb"], ["-X", "dev", "-W", "default"], ["-I"], ["-X", "utf8=0"]]
+
+
+def interpreter_modes(ctx):
+    """The same calls in child interpreters started with other flags: asserts stripped (-O, -OO), bytes/str
+    comparison an error (-bb), development mode, isolated mode.  A sample of the run's own agreeing cases is
+    answered there and compared with the model's answers."""
+    import pyexec
+    keep = []
+    for line, proj, want in ctx.replayable[:: max(1, len(ctx.replayable) // 400)]:
+        if len(line) > 8000:
+            continue
+        try:
+            g = pyexec.py_answer(line)
+        except Exception:  # noqa: BLE001
+            continue
+        if PROJ[proj](g) == PROJ[proj](want):
+            keep.append((line, proj, want))
+    if not keep:
+        return
+    # every text argument also in its other form (str <-> bytes), right after the original, in the same process
+    twins = []
+    for line, proj, want in keep:
+        toks = line.split()
+        if any(t[:2] in ("s:", "b:") and len(t) > 2 for t in toks):
+            twins.append((" ".join(("b:" + t[2:]) if t[:2] == "s:" and len(t) > 2 else ("s:" + t[2:]) if t[:2] == "b:" and len(t) > 2 else t
+                                   for t in toks), proj))
+    twins = twins[:200]
+    twin_want = dict(zip([t[0] for t in twins], run_model([t[0] for t in twins], 1))) if twins else {}
+    tw = dict(twins)
+    both = []
+    for line, proj, want in keep:
+        both.append((line, proj, want))
+        toks = line.split()
+        tl = " ".join(("b:" + t[2:]) if t[:2] == "s:" and len(t) > 2 else ("s:" + t[2:]) if t[:2] == "b:" and len(t) > 2 else t for t in toks)
+        if tl != line and tl in twin_want:
+            both.append((tl, tw[tl], twin_want[tl]))
+    keep = both
+    text = "\n".join(k[0] for k in keep) + "\n"
+    env = dict(os.environ, PYEMV_REPO=core.REPO)
+    env.pop("PYTHONOPTIMIZE", None)
+    n = 0
+    modes = INTERPRETER_MODES if ctx.thorough else INTERPRETER_MODES[:3]
+    for flags in modes:
+        r = subprocess.run([sys.executable] + flags + [os.path.join(core.HERE, "modeprobe.py")], input=text, env=env,
+                           stdout=subprocess.PIPE, stderr=subprocess.PIPE, text=True, timeout=600)
+        out = r.stdout.split("\n")
+        if r.returncode != 0 or len(out) < len(keep):
+            ctx.violations.append({"kind": "predicate", "predicate": "the library runs under interpreter flags " + " ".join(flags),
+                                   "detail": f"child interpreter exited {r.returncode} after {len(out) - 1} of {len(keep)} answers: {r.stderr.strip()[-300:]}",
+                                   "op": "interpreter mode " + " ".join(flags)})
+            continue
+        for (line, proj, want), g in zip(keep, out):
+            n += 1
+            if PROJ[proj](g) != PROJ[proj](want):
+                ctx.violations.append({"kind": "predicate", "predicate": "same answers under interpreter flags " + " ".join(flags),
+                                       "detail": f"python {' '.join(flags)}: {line[:300]} -> {g[:200]}, expected {want[:200]}",
+                                       "op": line, "note": "reproduce: echo '<op>' | PYEMV_REPO=/repo /venv/bin/python " + " ".join(flags) + " harness/modeprobe.py"})
+                break
+    ctx.relational["interpreter modes: same answers"] += n
+    ctx.evaluations += n
+    ctx.extra["interpreter_modes"] = {"modes": [" ".join(m) for m in modes], "calls_per_mode": len(keep)}
+
 
 def anchor_files(pid):
     """basenames of the source files the property is anchored in (properties.jsonl)"""
@@ -365,6 +471,8 @@ def main():
         try:
             try:
                 fn(ctx)
+                shared_object_session(ctx)
+                interpreter_modes(ctx)
             finally:
                 if reach_on:
                     ctx.extra["anchor_reach"] = reach.anchor_report(anchor_where(pid))
